@@ -424,6 +424,56 @@ fn carrier_laws<T: Carrier>(rep: &mut Report, rng: &mut Rng, n: usize, name: &st
     }
 }
 
+// Serde containers that replay buffered content (flatten / untagged / internally tagged): a none
+// inside them reaches the deserialiser as a unit, not as `none`
+#[derive(Clone, Debug, PartialEq, serde::Serialize, serde::Deserialize)]
+struct InnerP { v: PodOption<N64>, w: PodOption<M64> }
+#[derive(Clone, Debug, PartialEq, serde::Serialize, serde::Deserialize)]
+struct InnerO { v: Option<N64>, w: Option<M64> }
+#[derive(Clone, Debug, PartialEq, serde::Serialize, serde::Deserialize)]
+struct FlatP { a: u8, #[serde(flatten)] inner: InnerP }
+#[derive(Clone, Debug, PartialEq, serde::Serialize, serde::Deserialize)]
+struct FlatO { a: u8, #[serde(flatten)] inner: InnerO }
+#[derive(Clone, Debug, PartialEq, serde::Serialize, serde::Deserialize)]
+#[serde(untagged)]
+enum UntaggedP { A { v: PodOption<N64>, x: u8 }, B(u8) }
+#[derive(Clone, Debug, PartialEq, serde::Serialize, serde::Deserialize)]
+#[serde(untagged)]
+enum UntaggedO { A { v: Option<N64>, x: u8 }, B(u8) }
+#[derive(Clone, Debug, PartialEq, serde::Serialize, serde::Deserialize)]
+#[serde(tag = "kind")]
+enum TaggedP { A { v: PodOption<N64> }, B { z: u8 } }
+#[derive(Clone, Debug, PartialEq, serde::Serialize, serde::Deserialize)]
+#[serde(tag = "kind")]
+enum TaggedO { A { v: Option<N64> }, B { z: u8 } }
+
+fn serde_containers(rep: &mut Report, v: u64) {
+    let po: PodOption<N64> = PodOption::from(N64(v));
+    let pw: PodOption<M64> = PodOption::from(M64(v));
+    let (ov, ow) = (po.get(), pw.get());
+    rep.count("serde:containers");
+    rep.monitor_runs += 1;
+    let bad = |rep: &mut Report, what: &str, detail: String| {
+        rep.violate("podoption-serde-container", "inside a flatten / untagged / internally tagged Serde container a PodOption must behave like the Option it stands for", serde_json::json!({"v": v, "what": what, "detail": detail}).to_string());
+    };
+    macro_rules! same {
+        ($p:expr, $o:expr, $P:ty, $O:ty, $name:expr) => {{
+            let (jp, jo) = (serde_json::to_string(&$p).unwrap(), serde_json::to_string(&$o).unwrap());
+            if jp != jo {
+                bad(rep, $name, format!("written {} instead of {}", jp, jo));
+            }
+            let back_p = serde_json::from_str::<$P>(&jo).map_err(|e| e.to_string());
+            let back_o = serde_json::from_str::<$O>(&jo).map_err(|e| e.to_string());
+            if back_o.is_ok() && back_p != Ok($p.clone()) {
+                bad(rep, $name, format!("reading {} gives {:?}", jo, back_p));
+            }
+        }};
+    }
+    same!(FlatP { a: 3, inner: InnerP { v: po, w: pw } }, FlatO { a: 3, inner: InnerO { v: ov, w: ow } }, FlatP, FlatO, "flatten");
+    same!(UntaggedP::A { v: po, x: 9 }, UntaggedO::A { v: ov, x: 9 }, UntaggedP, UntaggedO, "untagged");
+    same!(TaggedP::A { v: po }, TaggedO::A { v: ov }, TaggedP, TaggedO, "internally tagged");
+}
+
 fn addr_values(rng: &mut Rng, n: usize) -> Vec<[u8; 32]> {
     let mut v: Vec<[u8; 32]> = vec![[0u8; 32], [0xff; 32]];
     for bit in 0..256 {
@@ -505,6 +555,22 @@ pub fn run_c14(ctx: &Ctx) -> Report {
         let bad = |rep: &mut Report, what: &str| {
             rep.violate("podoption-addr", what, serde_json::json!({"value": emit::hex(a)}).to_string());
         };
+        // the same value read in place at every offset 0..7 from an aligned address (alignment of the type is 1)
+        for shift in 0..8usize {
+            let mut sh = emit::Shifted::new(a, shift);
+            let ok_ref = match pod_from_bytes::<PodOption<Address>>(sh.bytes()) {
+                Ok(q) => q.get() == want && q.as_ref() == want.as_ref() && q.copied() == want && q.cloned() == want && Option::<Address>::from(*q) == want,
+                Err(_) => false,
+            };
+            let ok_mut = match spl_pod::bytemuck::pod_from_bytes_mut::<PodOption<Address>>(sh.bytes_mut()) {
+                Ok(q) => q.as_mut().map(|x| *x) == want,
+                Err(_) => false,
+            };
+            if !ok_ref || !ok_mut {
+                rep.violate("podoption-addr-in-place", "a PodOption<Address> read in place at an unaligned address reads differently from the same bytes elsewhere",
+                    serde_json::json!({"value": emit::hex(a), "address_offset": shift}).to_string());
+            }
+        }
         if p.get() != want || p.as_ref() != want.as_ref() || p.copied() != want || p.cloned() != want || Option::<Address>::from(p) != want {
             bad(&mut rep, "reads as none exactly when the bytes equal the none value (get/as_ref/copied/cloned/into Option)");
         }
@@ -598,6 +664,10 @@ pub fn run_c14(ctx: &Ctx) -> Report {
         u64s.push(if rng.chance(1, 10) { 0 } else { rng.next_u64() });
     }
     for v in u64s {
+        serde_containers(&mut rep, v);
+        if v % 3 == 0 {
+            serde_containers(&mut rep, u64::MAX);
+        }
         let is_none = v == 0;
         rep.count(if is_none { "u64:none" } else { "u64:some" });
         let p = PodOption::from(N64(v));
